@@ -1,4 +1,5 @@
 import Amgcl.Proofs.RSTransfer
+import Amgcl.Proofs.RSRowSum2
 
 import Amgcl.Properties.C03
 /-!
@@ -156,6 +157,68 @@ example :
       ⟨2, #[[(0,2)],[(1,3)]]⟩).P with
       | .emptyLevel => true
       | _ => false) = true := by
+  decide +kernel
+
+/-! ## (d) interpolation rows sum to one -/
+
+section rowsum
+variable {K : Type} [Field K] [LinearOrder K] [IsStrictOrderedRing K]
+
+/-- one row of the interpolation loop (l.189-244), for ANY C/F marks, flags and coarse numbering: the entries written
+to the row of `P` sum to one when the stored values of the row of `A` sum to zero, the row has at most one stored
+diagonal entry and no flagged diagonal entry, and — the hypotheses the code needs — `0 ≤ eps`, `0 ≤ eps_trunc`, the
+strong negative C couplings exceed the ABSOLUTE threshold (`eps < |a_den|`; cf. known finding K05: a row whose
+couplings are all below `eps` is not interpolated at all), truncation keeps some of them (`eps < |a_den − d_neg|`),
+and for the positive off-diagonals: there are none, or there is no strong positive C coupling beyond `eps` (then
+`b_num` is lumped into the diagonal), or they are interpolated as well and the diagonal is positive -/
+theorem rs_rowsum_one (norm : K → K) (hnorm : ∀ x, norm x = |x|) (doTrunc : Bool) (epsTrunc eps : K)
+    (heps : 0 ≤ eps) (het : 0 ≤ epsTrunc) (cf : Array CF) (cidx : Array Nat) (i : Nat) (r : Row K) (flags : List Bool)
+    (hdiag : ((interpEntries cf r flags).filter fun e => decide (e.1.1 = i)).length ≤ 1)
+    (hoff : ∀ e ∈ interpEntries cf r flags, e.2 = true → e.1.1 ≠ i)
+    (hsum : ((interpEntries cf r flags).map (·.1.2)).sum = 0)
+    (ha : eps < |(interpAcc doTrunc i (interpWidth doTrunc epsTrunc (interpEntries cf r flags)).1
+            (interpWidth doTrunc epsTrunc (interpEntries cf r flags)).2.1 (interpEntries cf r flags)).aDen|)
+    (hat : doTrunc = true → eps < |(interpAcc doTrunc i (interpWidth doTrunc epsTrunc (interpEntries cf r flags)).1
+            (interpWidth doTrunc epsTrunc (interpEntries cf r flags)).2.1 (interpEntries cf r flags)).aDen
+          - (interpAcc doTrunc i (interpWidth doTrunc epsTrunc (interpEntries cf r flags)).1
+            (interpWidth doTrunc epsTrunc (interpEntries cf r flags)).2.1 (interpEntries cf r flags)).dNeg|)
+    (hb : let a := interpAcc doTrunc i (interpWidth doTrunc epsTrunc (interpEntries cf r flags)).1
+            (interpWidth doTrunc epsTrunc (interpEntries cf r flags)).2.1 (interpEntries cf r flags)
+          a.bNum = 0 ∨ |a.bDen| < eps ∨
+          (eps < |a.bDen| ∧ (doTrunc = true → eps < |a.bDen - a.dPos|) ∧ 0 < a.dia)) :
+    ((interpRow norm doTrunc epsTrunc eps cf cidx i r flags).2.map (·.2)).sum = 1 :=
+  interp_rowsum_one norm hnorm doTrunc epsTrunc eps heps het cf cidx i r flags hdiag hoff hsum ha hat hb
+
+/-- the same for the `P` returned by `transfer_operators` on a valid matrix: the structural hypotheses follow from
+the input (no duplicate columns) and from the way `connect` sets the flags (never on the diagonal) -/
+theorem transfer_rowsum_one (g : Garbage K) (norm : K → K) (hnorm : ∀ x, norm x = |x|) (epsStrong : K) (doTrunc : Bool)
+    (epsTrunc eps : K) (heps : 0 ≤ eps) (het : 0 ≤ epsTrunc) (A : CRS K) (hA : Input A) (P : CRS K)
+    (hP : (transferFull g norm epsStrong doTrunc epsTrunc eps A).P = .ok P) (i : Nat) (hi : i < A.nrows)
+    (hF : (transferFull g norm epsStrong doTrunc epsTrunc eps A).cf.getD i CF.U ≠ CF.C)
+    (hzero : ((A.row i).map (·.2)).sum = 0)
+    (ha : eps < |(rowAcc (transferFull g norm epsStrong doTrunc epsTrunc eps A) doTrunc epsTrunc A i).aDen|)
+    (hat : doTrunc = true →
+      eps < |(rowAcc (transferFull g norm epsStrong doTrunc epsTrunc eps A) doTrunc epsTrunc A i).aDen
+        - (rowAcc (transferFull g norm epsStrong doTrunc epsTrunc eps A) doTrunc epsTrunc A i).dNeg|)
+    (hb : let a := rowAcc (transferFull g norm epsStrong doTrunc epsTrunc eps A) doTrunc epsTrunc A i
+          a.bNum = 0 ∨ |a.bDen| < eps ∨
+          (eps < |a.bDen| ∧ (doTrunc = true → eps < |a.bDen - a.dPos|) ∧ 0 < a.dia)) :
+    ((P.row i).map (·.2)).sum = 1 :=
+  RS.transfer_rowsum_one g norm hnorm epsStrong doTrunc epsTrunc eps heps het A hA P hP i hi hF hzero ha hat hb
+
+end rowsum
+
+/-- non-vacuity: row 2 of a 4-point zero-row-sum matrix with a positive coupling, truncation on
+(`eps_trunc = 1/2` drops the weaker of its two strong C couplings): all hypotheses hold -/
+example :
+    let r : Row ℚ := [(0,-1),(1,-4),(2,4),(3,1)]
+    let cf : Array CF := #[CF.C, CF.C, CF.F, CF.F]
+    let fl := [true, true, false, false]
+    let a := interpAcc true 2 (interpWidth true (1/2) (interpEntries cf r fl)).1
+      (interpWidth true (1/2) (interpEntries cf r fl)).2.1 (interpEntries cf r fl)
+    (r.map (·.2)).sum = 0 ∧ a.aDen = -5 ∧ a.dNeg = -1 ∧ a.bNum = 1 ∧ a.bDen = 0 ∧
+    (interpRow (fun x : ℚ => if x < 0 then -x else x) true (1/2) (1/2251799813685248) cf #[0,1,0,0] 2 r fl).2
+      = [(1, 1)] := by
   decide +kernel
 
 /-! ## (e) restriction and coarse operator -/
